@@ -38,7 +38,7 @@ PRIMARIES = {('AttackGraph', 'nodes'), ('AttackGraph', 'attackers'), ('Model', '
 DETACH = {
     ('AttackGraph', 'nodes'): ([('parents', 'AttackGraphNode'), ('children', 'AttackGraphNode'),
                                 ('compromised_by|reached_attack_steps', 'Attacker'),
-                                ('entry_points', 'Attacker')], ('C09',)),
+                                ('entry_points@attackers', 'Attacker')], ('C09', 'C13')),
     ('AttackGraph', 'attackers'): ([('compromised_by', 'AttackGraphNode')], ('C09', 'C11')),
     ('Model', 'assets'): ([(DYN, ''), ('entry_points', 'AttackerAttachment')], ('C05',)),
     ('Model', 'associations'): ([('associations', 'pjs')], ('C05',)),
@@ -194,6 +194,11 @@ def run(ctx) -> list[Inst]:
                 continue
             refs, props = DETACH[key]
             for (field, owner) in refs:
+                via = None
+                if '@' in field:
+                    # no mirror field exists for this referrer: the clean-up has to range over the
+                    # whole owner container (`via`), not over a subset of it
+                    field, via = field.split('@')
                 names = field.split('|')
                 found = [d for d in facts.effects
                          if d.path.steps and dclass(d) in ('remove', 'rebind')
@@ -204,6 +209,16 @@ def run(ctx) -> list[Inst]:
                          and (not owner or d.ptype == owner or d.ptype == '')
                          and d is not e]
                 construct = f'DETACH: leaving {key[0]}.{key[1]} cleans {field}'
+                if found and via is not None and not any(via in d.path.steps for d in found):
+                    d = found[0]
+                    insts.append(Inst(
+                        RULE, f.short, construct, 'violation',
+                        msg=(f"'{d.text}' removes the object from '{field}' only for the objects reached "
+                             f"through {d.path!r}; '{field}' has no mirror field, so every element of "
+                             f"{key[0]}.{via} has to be examined (an attacker whose entry point it is need not "
+                             f"have compromised it)"),
+                        file=rel, line=d.lineno, props=props))
+                    continue
                 if found:
                     insts.append(Inst(RULE, f.short, construct, 'ok',
                                       msg=f'{found[0].func}: {found[0].text}', file=rel,
